@@ -49,6 +49,9 @@ struct Case {
     std::string text() const { std::string s; for (auto& l : lines) s += l + "\n"; s += "sched " + sched + "\n"; return s; }
 };
 
+// extra words given to `drive` / `gen` after the standard options (e.g. --witness): visible to h_gen
+static std::vector<std::string> g_drv_args;
+static inline bool drv_flag(const char* f) { for (auto& a : g_drv_args) if (a == f) return true; return false; }
 extern const char* H_PROP;
 extern bool H_TSO;                  // harness allows mem=tso schedules
 std::string h_gen(Src&);            // program text (lines separated by \n)
@@ -294,6 +297,7 @@ static inline int drive_main(const DriveOpts& o) {
 
 static inline int drv_main(int argc, char** argv) {
     std::string mode = argc > 1 ? argv[1] : "";
+    for (int i = 2; i < argc; i++) g_drv_args.push_back(argv[i]);
     auto arg = [&](const char* k, const char* def) -> std::string { for (int i = 2; i + 1 < argc; i++) if (!strcmp(argv[i], k)) return argv[i + 1]; return def; };
     auto has = [&](const char* k) { for (int i = 2; i < argc; i++) if (!strcmp(argv[i], k)) return true; return false; };
     if (mode == "run") {
